@@ -120,6 +120,12 @@ def check_C09(ctx):
         behs += tlc_sim(ctx, 'GEN_Wal', 'GEN_Wal_long.cfg', 500, 150, ctx.seed * 7 + 4, timeout=900, tag='gen-wal-long')
     behs = c09_corpus() + behs
     ok, bad = wal_replay_all(ctx, behs, 'c09', chunks=5 if ctx.quick() else 14)
+    # alignment sweep: files that start with one large delete ending 0..39 bytes around offset 65536 (the reader's buffer size),
+    # so that the header of the next record sits at every position relative to that boundary
+    align = tlc_sim(ctx, 'GEN_Wal', 'GEN_Wal_align.cfg', 1, 200, ctx.seed, timeout=600, tag='gen-wal-align')
+    ok3, bad3 = wal_replay_all(ctx, align, 'c09-align', chunks=1)
+    ok, bad = ok + ok3, bad + bad3
+    ctx.notes['alignment_sweep'] = '40 files whose second record header starts at offsets 65497+14..65536+14 relative to a 64 KB read buffer boundary'
     # (on a tree that disagrees with the specification the self-test may be impossible: the disagreements are the verdict then)
     try:
         if not c09_selftest(ctx, behs[-40:]) and not bad:
